@@ -78,3 +78,13 @@ macro_rules! generate_test_lu {
 
 generate_test_lu!(f32, test_lu_f32);
 generate_test_lu!(f64, test_lu_f64);
+
+// ---------------------------------------------------------------------------
+// verification hooks (add-only, off unless feature `verif-hooks` is enabled)
+#[cfg(feature = "verif-hooks")]
+impl LuSolver {
+    /// the private pivot vector
+    pub(crate) fn vh_ipiv(&self) -> Vec<i32> {
+        self.ipiv.clone()
+    }
+}
